@@ -29,7 +29,7 @@ RULE = ("catalogue sweep: run i uses crop i mod 37 and soil (i div 37) mod 15 (a
 STATE_MEASURE = "n/a (catalogue sweep; pair coverage reported instead)"
 PROFILE = {"z_bund_choices": [0.0, 0.0, 0.05, 0.1, 0.2], "leap_end_p": 0.06, "crop_override_p": 0.5, "gw": 0.25,
            "end_kinds": ["after", "after", "mid", "eoy", "harvestish", "mid"], "start_rel": ["at", "before", "before", "after"],
-           "sensible_planting_p": 0.6, "program_param_p": 0.0, "any_dz": True, "dz_p": 0.35, "custom_soil_p": 0.0, "switchgdd_p": 0.05, "co2_p": 0.3, "newyear_p": 0.2}
+           "sensible_planting_p": 0.6, "program_param_p": 0.0, "gw_jump_p": 0.6, "n_seasons": [1, 1, 2, 2, 3], "any_dz": True, "dz_p": 0.35, "custom_soil_p": 0.0, "switchgdd_p": 0.05, "co2_p": 0.3, "newyear_p": 0.2}
 
 
 def gen_case(rng, tier, idx):
